@@ -32,6 +32,14 @@ def lit_to_facts(lit):
     if term[0] == "discr":
         variants = term[2]
         x = term[1]
+        if kind == "isin":
+            names = [_variant_name(variants, v) for v in val]
+            if variants and all(n is not None for n in names):
+                rest = [n for n, _ in variants if n not in names]
+                if len(names) == 1:
+                    return [_variant_fact(x, names[0], True)]
+                return [_variant_fact(x, n, False) for n in rest]
+            return []
         if kind == "is":
             n = _variant_name(variants, val)
             if n is not None:
@@ -46,12 +54,14 @@ def lit_to_facts(lit):
             return [_variant_fact(x, rest[0], True)]
         return [_variant_fact(x, n, False) for n in names if n is not None]
     # boolean switch: 0 = false
-    if kind == "is" and val == "0":
-        return bool_facts(term, False)
-    if kind == "isnot" and val == ("0",):
-        return bool_facts(term, True)
-    if kind == "is" and val == "1" and _is_boolish(term):
-        return bool_facts(term, True)
+    numeric = ty == "char" or ty in ("u8", "u16", "u32", "u64", "usize", "i8", "i16", "i32", "i64", "isize", "u128", "i128")
+    if not numeric:
+        if kind == "is" and val == "0":
+            return bool_facts(term, False)
+        if kind == "isnot" and val == ("0",):
+            return bool_facts(term, True)
+        if kind == "is" and val == "1" and _is_boolish(term):
+            return bool_facts(term, True)
     def const(v):
         try:
             n = int(v)
@@ -62,6 +72,11 @@ def lit_to_facts(lit):
         if ty in ("u8", "u16", "u32", "u64", "usize", "i8", "i16", "i32", "i64", "isize", "u128", "i128"):
             return ("int", n)
         return None
+    if kind == "isin":
+        cs = [const(v) for v in val]
+        if all(c is not None for c in cs):
+            return [(("in", term, tuple(sorted(cs))), True)]
+        return []
     if kind == "is":
         c = const(val)
         if c is not None:
